@@ -313,6 +313,27 @@ def r26(facts, res):
         res.lost(R, 'expected the state vector and the edge vector each to be drained once in gc, found %d drains' % len(drains))
         return
     contains = [bb for bb, t in b.calls_named('contains') if 'HashSet' in (callee_of(t).get('self_ty') or cpath(t) or '')]
+    # a map filled only for members of the reachable set is a membership test as well (old index -> new index)
+    derived = set()
+    for bb, t in b.calls_named('insert'):
+        if 'HashMap' not in (callee_of(t).get('self_ty') or cpath(t) or '') or not t['args']:
+            continue
+        m = b.op_root(t['args'][0])[0]
+        guarded = False
+        for sb in b.control_deps_pd(bb):
+            ol = op_local(b.term(sb)['on'])
+            r_ = b.root(ol, through=('not',), stop_named=False)[0] if ol is not None else None
+            if any(d[1] == 'call' and d[0] in contains for d in b.defs().get(r_, []) if r_ is not None):
+                guarded = True
+        if guarded:
+            derived.add(m)
+        else:
+            derived.discard(m)
+            derived.add(('poisoned', m))
+    derived = {m for m in derived if not isinstance(m, tuple) and ('poisoned', m) not in derived}
+    for bb, t in b.calls(lambda t: cname(t) in ('contains_key', 'get')):
+        if 'HashMap' in (callee_of(t).get('self_ty') or cpath(t) or '') and t['args'] and b.op_root(t['args'][0])[0] in derived:
+            contains.append(bb)
     for bb, t in drains:
         which = {1: 'states', 3: 'edges'}[b.op_root(t['args'][0])[0]]
         key = 'filtered:' + which
